@@ -196,6 +196,12 @@ class SimActorSystem:
                     if attempt == 2:
                         if not isinstance(msg, ta.PoisonMessage):
                             self.send(name, sender_name, ta.PoisonMessage(msg, tb))
+                except SystemExit:
+                    # not an Exception: Thespian's retry / PoisonMessage path does not apply, the actor's process ends
+                    # (its parent is told ChildActorExited) - assumption, not cross-checked by ActorSem
+                    self.handler_errors.append((name, type(msg).__name__, traceback.format_exc()))
+                    self.kill(name)
+                    return
         finally:
             self.clock.current = prev
 
